@@ -252,6 +252,40 @@ def check_reply_uses(e: Engine, rep: Report, ctx: Ctx, short: str):
                     loc=f.loc(call))
 
 
+def _peer_talkers(e: Engine, cq: str):
+    """Names of the methods of class cq (inherited ones included) that
+    talk to the peer: they use self.client / self.io / self.socket, or call
+    such a method on self."""
+    meths = {}
+    for k in e.p.mro(cq):
+        c = e.p.classes.get(k)
+        if c is None:
+            continue
+        for nm, m in c.methods.items():
+            meths.setdefault(nm, m)
+    talk = set()
+    for nm, m in meths.items():
+        src = ast.unparse(m.node)
+        if 'self.client.' in src or 'self.io.' in src or \
+                'self.socket.' in src:
+            talk.add(nm)
+    changed = True
+    while changed:
+        changed = False
+        for nm, m in meths.items():
+            if nm in talk:
+                continue
+            for x in walk_own(m.node):
+                if isinstance(x, ast.Call) and \
+                        isinstance(x.func, ast.Attribute) and \
+                        isinstance(x.func.value, ast.Name) and \
+                        x.func.value.id == 'self' and x.func.attr in talk:
+                    talk.add(nm)
+                    changed = True
+                    break
+    return talk
+
+
 # -------------------------------------------------------------------- N3
 def n3(e: Engine, rep: Report, K: Kinds):
     # (a) SMTP/LMTP _deliver: result.set unreachable from exception arms
@@ -312,12 +346,14 @@ def n3(e: Engine, rep: Report, K: Kinds):
             for d in datas:
                 rep.evaluations += 1
 
+                talkers = _peer_talkers(e, cq)
+
                 def io_step(x):
                     return x.kind == 'call' and x is not s and \
                         isinstance(x.ast.func, ast.Attribute) and \
                         isinstance(x.ast.func.value, ast.Name) and \
                         x.ast.func.value.id == 'self' and \
-                        x.ast.func.attr.startswith('_')
+                        x.ast.func.attr in talkers
                 pth = dataflow.find_path(
                     g, d, lambda x: x is s,
                     edge_ok=lambda a, l, s2: not isinstance(l, tuple))
